@@ -15,6 +15,7 @@ func checkC19(c *Ctx, r *Report, tier string) {
 	round5(c, r, "C19")
 	round6(c, r, "C19")
 	round7(c, r, "C19")
+	round8(c, r, "C19")
 	r.Rule("C19.R1", "heap.Interface contract of both queue types: Less is a strict comparison of the priorities of elements i and j whose direction matches the constructor (NewMin… ⇒ <, NewMax… ⇒ >); Swap exchanges exactly i and j; Push appends its argument; Pop returns the last element and shrinks by one; Len is len; the wrapper's Push/Pop go through container/heap on the wrapped queue and Peek reads index 0", 13)
 	r.Rule("C19.R3", "the ordering direction of a queue is fixed by its constructor: the wrapped heap is stored only into freshly allocated queues", 1)
 	queueKindFixedAtConstruction(c, r, "C19.R3")
